@@ -9,7 +9,8 @@ CLAIMS = {
                 'separates the ADD-PATH variants by distinct constant markers; every registered NLRI / attribute has its '
                 'pack/unpack/index/json (not the raising stub); renderers are deterministic (no set iteration, id, hash, clock); '
                 'no __eq__ compares a field with itself; the AS_PATH 2-byte detour keeps the path. Also: fields kept beside the packed bytes are part of index(); a class indexed by its complete bytes compares every wire field (5 known findings F38); __deepcopy__ is deep for mutable slots; order-independent sets render sorted. Not decided: value-level round '
-                'trips for every family and attribute.',
+                'trips for every family and attribute.'
+                ' Round 3: fixed fields of a decoder read disjoint byte ranges per path (F44 fixed); copies give the copy every declared slot; FlowSpec length round trip (shared C16.R4); memoised renderings do not depend on call arguments.',
         'note': _NOTE,
         'technique': 'MRO-effective member lookup + operand-set comparison of __eq__/index/__hash__, registry completeness, typed iteration checks',
     },
@@ -19,7 +20,8 @@ CLAIMS = {
                 'functions followed); inventory of every packed integer with its guard-derived bound (overflow raises, never '
                 'wraps); the shared validity check runs for API commands and at encode time (known finding F29: not for the '
                 'configuration file); 4-byte ASNs accepted and AS paths built 4 bytes wide. Also: (high << k) + low assemblies bound the low part below 2^k; numbers handed to masking factories are bounded; FlowSpec lists keep their AND bits as written. Not decided: acceptance of every '
-                'token sequence.',
+                'token sequence.'
+                ' Round 3: a range guard one short of the field is reported; the family of a prefix is recorded on every returning path; every installing API handler validates first and the next-hop requirement matches the encoder for every SAFI (F54, F55 fixed); a failed conversion is a refusal (F56 fixed); one-octet fields and prefix lengths handed to factories are bounded (F57, F58 fixed).',
         'note': _NOTE,
         'technique': 'interval upper bounds from dominating range guards, pack-format width table, def-use into lossy factories, call-site presence checks',
     },
@@ -28,7 +30,8 @@ CLAIMS = {
                 'value width thresholds and the power/rewop tables; component registry 1-13 by family; NLRI length writer and '
                 'reader agree (240 switch, 0xFnnn up to 4095, 8-bit shift); malformed input raises and is mapped to INVALID, '
                 'never a shorter rule; traffic action (type, subtype) constants; the text parser reassigns the AND flag before '
-                'every operator. Not decided: operator/value semantics of every rule text.',
+                'every operator. Not decided: operator/value semantics of every rule text.'
+                ' Round 3: the length writer is evaluated on boundary lengths; swapped same-typed arguments (shared rule); copies are complete.',
         'note': _NOTE,
         'technique': 'constant folding, writer/reader layout comparison, bit-width inference, guard checks, path-sensitive flag tracking over the parser CFG',
     },
@@ -36,7 +39,8 @@ CLAIMS = {
         'text': 'After _clear() every exit of _reload (return or escaping exception) passes commit or rollback; nothing rolls back '
                 'or reports failure after the commit; replace_reload compares attributes and next hop, forces re-announcement, '
                 'and withdraws leftovers unconditionally; Reactor.reload touches peers only after success. Also: Neighbor.__eq__ compares everything the OPEN is built from. Not decided: equality '
-                'of peer tables for arbitrary configuration pairs.',
+                'of peer tables for arbitrary configuration pairs.'
+                ' Round 3: the rollback restores what _clear() saved (F48 fixed); every parse starts from a clean parser (F49 fixed); no section parser reaches a mutator of the shared RIB before the commit (known F50); the offline branch of Peer.reconfigure covers every state but ESTABLISHED.',
         'note': _NOTE,
         'technique': 'must-pass-through on the CFG with exception edges, reachability after commit, def-use atoms of the re-announce decision',
     },
@@ -45,7 +49,8 @@ CLAIMS = {
                 '`negotiated` must make the hit depend on the session (or be provably off); the cached collection never holds a key '
                 'its consumer pops; no decode-reachable rewrite of a class attribute of a multiply-registered class; negotiated is '
                 'read-only while decoding; singletons not mutated (thorough). One known finding (F18). Also: a memo on a shared attribute object does not depend on call arguments; identity-keyed class tables only grow; memo key and value move together. Not decided: equality of '
-                'outputs over message sequences.',
+                'outputs over message sequences.'
+                ' Round 3: class-level containers filled through self are listed process-wide tables or violations.',
         'note': _NOTE,
         'technique': 'runtime-class-write inventory with mypy types, guard atom analysis, registry multiplicity, decode reachability',
     },
@@ -53,7 +58,8 @@ CLAIMS = {
         'text': 'The rise/fall automaton of one() is extracted by symbolic evaluation over the complete finite predicate space (96 '
                 'cells) and compared with the reference automaton; what exabgp() writes per state; SIGTERM / KeyboardInterrupt '
                 'withdraw unconditionally; every emitted keyword is in the static route parser and the prefix is a v6 dispatch '
-                'path. Also: the community announced per target x withdraw_on_down x community options. Not decided: timing, the external check command.',
+                'path. Also: the community announced per target x withdraw_on_down x community options. Not decided: timing, the external check command.'
+                ' Round 3: module-level state tuples and hoisted locals are resolved; the as-path precedence (state-specific over generic) is evaluated over the four cases.',
         'note': _NOTE,
         'technique': 'decision-table extraction by exhaustive symbolic evaluation of the if-tree, writer/reader grammar table agreement',
     },
@@ -63,7 +69,8 @@ CLAIMS = {
                 'or sanitised (json.dumps/_string/hexstring); same for the Text/V4Text encoders with oneline/hexstring; the '
                 'attribute key table is injective over renderable entries; everything written is ASCII (json.dumps keeps '
                 'ensure_ascii, oneline confines to ASCII); no newline in JSON templates, envelope keys; every message kind has '
-                'an emitter in each encoder class. One known finding (F9). Also: NO_GENERATION pseudo-attributes are rendered only for NEXT_HOP on request (evaluated over the cases); unsent bytes go back to the front of the write queue. Not decided: parseability of every nested fragment.',
+                'an emitter in each encoder class. One known finding (F9). Also: NO_GENERATION pseudo-attributes are rendered only for NEXT_HOP on request (evaluated over the cases); unsent bytes go back to the front of the write queue. Not decided: parseability of every nested fragment.'
+                ' Round 3: fragment kinds (member vs value) of route json() and list contexts (F46 fixed); no strict codec in the encoders; bare JSON numbers are decimal.',
         'note': _NOTE,
         'technique': 'field-sensitive taint from decode sources + safe-string inference over f-string/format/% interpolations with mypy types, table injectivity, registry exhaustiveness',
     },
@@ -72,7 +79,8 @@ CLAIMS = {
                 'AS_TRANS/AS4_PATH structure; every make_aspath of caller-provided ASNs is 4 bytes wide; the ADD-PATH tables of '
                 'all pack_nlri implementations agree and use the send direction; negotiated ADD-PATH directions; MP_REACH / '
                 'MP_UNREACH layout and codes; next-hop self resolved before every RIB insertion into a fresh attribute '
-                'collection. Not decided: value-level round trip of every route against an independent decoder.',
+                'collection. Not decided: value-level round trip of every route against an independent decoder.'
+                ' Round 3: a default replaces only an absent attribute (membership / None test, not truthiness); negotiated local / peer AS are the true 4-byte values (shared C07.R3); collections that pack differently do not share an index (F45 fixed).',
         'note': _NOTE,
         'technique': 'decision-table extraction from lambda/if trees compared with an RFC oracle, sibling table agreement, def-use provenance, constant folding',
     },
@@ -81,7 +89,8 @@ CLAIMS = {
                 'the JSON keys and the Adj-RIB-In calls; decoder Action and ADD-PATH direction (receive) per section; twin '
                 'handlers identical in normal form; validator and lazy parser of MP_REACH walk the same offsets; next hop '
                 'attribution (first address); AS_PATH/AS4_PATH merge slices and packing width. Also: the slices of the AS_PATH/AS4_PATH merge are bounded by lengths of the same segment kind; a block carrying MP attributes never enters the one-entry block cache (shared with C19). Not decided: field-by-field '
-                'equality with a reference decoder.',
+                'equality with a reference decoder.'
+                ' Round 3: bit tests on the decode path can succeed (constant masks); the UPDATE handlers store each announced entry with its own next hop.',
         'note': _NOTE,
         'technique': 'flow-sensitive label propagation and reaching definitions, label-flow (taint-style) def-use tracking, sibling normal-form comparison, offset-sequence agreement, constant folding',
     },
@@ -89,7 +98,8 @@ CLAIMS = {
         'text': 'Budget expression as a linear form (msg_size - 23 - len(attr)); MP generator budgets subtract every buffer '
                 'concatenated into the same yield; length predictors agree with writers on the 255 switch; buffers grow only '
                 'under the room test; the prefix that triggers a split starts the next buffer; no room means no message. Not '
-                'decided: the arithmetic at the 255/256 and 4096/65535 boundaries for all inputs. Also: a bare NLRI goes into the NLRI field only after looking at the route next hop; a buffer that went out is emptied before the next message that includes it.',
+                'decided: the arithmetic at the 255/256 and 4096/65535 boundaries for all inputs. Also: a bare NLRI goes into the NLRI field only after looking at the route next hop; a buffer that went out is emptied before the next message that includes it.'
+                ' Round 3: length predictors and header writers are evaluated on boundary values (sa/evalfn.py); the room tests are evaluated for -1 and 0; the pack_attribute flag is true whenever something is announced.',
         'note': _NOTE,
         'technique': 'linear-form normalisation, yield/budget name-set comparison, guard extraction, statement-order flow after yields',
     },
@@ -97,7 +107,8 @@ CLAIMS = {
         'text': 'replace_restart dominates the first send in _main and re-queues exactly the cached routes with force=True plus '
                 'previous-minus-new withdraws; _reset reaches reset_rib; reset drains queues but keeps the cache; the automatic '
                 'End-of-RIB is guarded by (generator exhausted and send_eor) and covers every negotiated family; withdraws always '
-                'leave the cache. Not decided: every cut point between two messages.',
+                'leave the cache. Not decided: every cut point between two messages.'
+                ' Round 3: the per-family replay loops have no early exit; each shared RIB is emptied by its own adj-rib setting; swapped same-typed arguments.',
         'note': _NOTE,
         'technique': 'dominance on the _main CFG, call-argument folding, guard-set comparison, def-use',
     },
@@ -106,7 +117,8 @@ CLAIMS = {
                 'that answer for it) gives exactly one terminal answer on every CFG path, exceptions included; RIB effects come '
                 'after a non-empty parse result; the neighbour set of every effect derives from the selector-matched peers; '
                 'an empty selector match is not widened to all peers; every selector term is tested; both line readers keep '
-                'the unterminated tail and the queues are FIFO. Also: selector terms match as whole terms; received_async hands over one command per call. Not decided: arbitrary chunkings at run time, group mode semantics.',
+                'the unterminated tail and the queues are FIFO. Also: selector terms match as whole terms; received_async hands over one command per call. Not decided: arbitrary chunkings at run time, group mode semantics.'
+                ' Round 3: Processes.answer() is data, not a terminal reply (F53 fixed); the scheduler never loses a popped entry (F47 fixed); no error answer after a RIB mutation in one callback (F51 fixed); no action chosen by a fall-back word (F52 fixed); a false partial() gives no route.',
         'note': _NOTE,
         'technique': 'path-sensitive count lattice {0,1,>=2} over handler CFGs with interprocedural summaries, def-use provenance of the peer set, sibling shape checks',
     },
@@ -115,7 +127,8 @@ CLAIMS = {
                 'from its own attribute group, keyed through _new_nlri); every queueing path reaches the matching cache '
                 'update; updates() emits refresh < withdraw < announce; every queue is detached before the first yield and '
                 'never touched through self across a suspension; in_cache compares attributes and next hop; who writes '
-                'the tables (thorough). One known finding (F3) is listed. Also: one way into each queue (single writer), nothing emitted from one queue is filtered by another. Not decided: convergence over all histories.',
+                'the tables (thorough). One known finding (F3) is listed. Also: one way into each queue (single writer), nothing emitted from one queue is filtered by another. Not decided: convergence over all histories.'
+                ' Round 3: in_cache compares the NLRI bytes where index() is assembled from parts (F42 fixed); no attribute group is taken out of the announce queue; withdraws are held back for the first batch only.',
         'note': _NOTE,
         'technique': 'alias-aware def-use rules, CFG reachability/dominance between yield groups, must-pass-through on queueing paths',
     },
@@ -125,7 +138,8 @@ CLAIMS = {
                 'IN/OUT mapping; both AS numbers get the AS_TRANS fix-up from their own OPEN; refusal subcodes per guard; '
                 'pack_capabilities and Capabilities.unpack describe the same standard and RFC 9072 layouts; each capability '
                 'is advertised under its own configuration flag. Also: the local AS never depends on what the peer announced; the iBGP test of the router-id collision uses the negotiated peer AS. Not decided: equality with an independent computation for '
-                'arbitrary OPEN pairs.',
+                'arbitrary OPEN pairs.'
+                ' Round 3: the family intersection is recognised as loop or comprehension; each capability is filled from its own neighbor list (addpaths / nexthops / families).',
         'note': _NOTE,
         'technique': 'guard/term extraction into (side, capability) sets compared with an RFC oracle table, def-use, constant folding, writer/reader layout comparison',
     },
@@ -135,7 +149,8 @@ CLAIMS = {
                 'decode loop shortens its buffer on every path (lower bounds folded, early-exit guards used), explicit '
                 'non-Notify raises reachable from the decoders are limited to the triaged defensive guards (a new one '
                 'fires), the last-resort barriers exist, unknown attributes are kept/ignored not refused. Also: the text of every Notify is ASCII whatever the peer sent (safe-string inference, class-hierarchy dive into __str__); no search of a message-built list inside a loop on the decode path; class-table lookups with a message-derived key are guarded. Not decided: '
-                'implicit IndexError/struct.error on every read, the linear-time bound.',
+                'implicit IndexError/struct.error on every read, the linear-time bound.'
+                ' Round 3: call graph follows property getters (lazy parsers) and typing.Protocol implementers restricted to registered classes (731 decode-reachable functions); dict lookups with computed keys outside the barrier are guarded (F40 fixed); message classes sharing a TYPE agree on the attributes read after a cast (F41 fixed); octets handed to Notify as data are bounded while a strict decode logs them; the OPEN parameter codec (shared C07.R5).',
         'note': _NOTE,
         'technique': 'resolved call graph + SCC, syntax-directed loop-progress walk with interval lower bounds, interprocedural explicit exception flow with a frozen triage table',
     },
@@ -145,7 +160,8 @@ CLAIMS = {
                 'ESTABLISHED reached only after OPEN sent/recorded, peer OPEN read/recorded, validate_open, KEEPALIVE '
                 'sent and read, on every path; senders of UPDATE/EOR/REFRESH/OPERATIONAL only below Peer._main; every '
                 'move to IDLE paired with a closing call; up/down emission sites and their ordering in the failure arms. '
-                'Not decided: real interleavings (second connection, task cancellation).',
+                'Not decided: real interleavings (second connection, task cancellation).'
+                ' Round 3: change(OPENCONFIRM) follows validate_open on every path (event-order typestate for both transitions).',
         'note': _NOTE,
         'technique': 'per-function CFG + path-sensitive typestate propagation with correlated guards, call-graph who-may-call, dominance',
     },
@@ -154,7 +170,8 @@ CLAIMS = {
                 'read; constants and the per-type length table equal RFC 4271/2918; the accumulate-exactly-N loop shape '
                 'of _reader_async; unknown type 1/3 and reader error re-raised unchanged; msg_size raised only from '
                 'negotiated.msg_size after negotiated.received; no cancellable partial read that is then resumed. Not '
-                'decided: behaviour under every actual segmentation (asyncio sock_recv_into contract trusted).',
+                'decided: behaviour under every actual segmentation (asyncio sock_recv_into contract trusted).'
+                ' Round 3: no message leaves the reader between the header read and the per-type length check.',
         'note': _NOTE,
         'technique': 'decision-plan extraction + sibling comparison, constant folding, def-use shape check of the read loop',
     },
@@ -163,7 +180,8 @@ CLAIMS = {
                 'within the RFC table; error class by place; a received NOTIFICATION is never answered; in the except '
                 'Notify arm the NOTIFICATION is written at most once, then reset, nothing after (path-sensitive count); '
                 'every registered message type is handled or refused in ESTABLISHED. Also: a NOTIFICATION is written only from the except Notify arm; framing errors are handed back with the transport open; every refusal generator that is built is iterated or scheduled. Not decided: the bytes written in '
-                'every state/fault combination.',
+                'every state/fault combination.'
+                ' Round 3: the Notify text rule is shared (C10.R8): a Notify that can not be built is answered 1/0 instead of its own class.',
         'note': _NOTE,
         'technique': 'constant folding of all Notify sites, explicit exception flow, path-sensitive count lattice over the handler CFG, registry exhaustiveness',
     },
@@ -171,7 +189,8 @@ CLAIMS = {
         'text': 'Wiring and constants only: expiry raise guarded by (now - last_read) > holdtime with the zero hold time '
                 'returning first and last_read refreshed only by real messages; keepalive = holdtime/3 and need_ka firing '
                 'rule; both timer calls unconditional in every main-loop iteration before outbound work; bounded outbound '
-                'batch; open wait -> 5/1. No statement about real time is decided.',
+                'batch; open wait -> 5/1. No statement about real time is decided.'
+                ' Round 3: need_ka is evaluated for clock values before / at / after the due time; every definition of the batch size folds to a small constant.',
         'note': _NOTE,
         'technique': 'guard extraction + def-use on the timer functions, loop-body position/dominance, constant folding',
     },
@@ -180,7 +199,8 @@ CLAIMS = {
                 'marker is consumed before the announce sinks, the attribute walk checks the declared length against '
                 'what is left, every registered attribute has a disposition (flag folded through the MRO or only '
                 'Notify(3,x) escapes), both failure arms of the walk honour both flags, discard continues the walk, '
-                'the RFC 7606 section 7 class table. Also: a malformed block neither enters the block memo nor leaves its key pointing at an older collection. Not decided: which malformed values each decoder recognises.',
+                'the RFC 7606 section 7 class table. Also: a malformed block neither enters the block memo nor leaves its key pointing at an older collection. Not decided: which malformed values each decoder recognises.'
+                ' Round 3: the except arms are evaluated for the three RFC 7606 classes (shape independent); every path through the zero-length branch ends in a marker; nested declared lengths in the attribute decoders are compared with what is left (F43 fixed).',
         'note': _NOTE,
         'technique': 'AST pattern + resolved-callee rules, constant folding of class flags through the MRO, interprocedural explicit exception flow',
     },
